@@ -82,9 +82,16 @@ def traverse_facts(ctx, cq):
         F["empty.length"] = Fact("length = size" if lv == sv else "length = " + lv, empty[0], fn)
     else:
         F["empty.leaf"] = Fact(ef, fb, fn)
+    ab = _abbreviations(fn)
     if len(full) == 1:
-        d = {const_str(k): norm(v) for k, v in zip(full[0].value.values[0].keys, full[0].value.values[0].values)}
-        F["leaf"] = Fact("{length: size, pieces root: hasher.root}" if d.get("length") == sv and d.get("pieces root") == "%s.root" % hv else "{length: %s, pieces root: %s}" % (d.get("length"), d.get("pieces root")), full[0], fn)
+        d = {const_str(k): ab.get(norm(v), norm(v)) for k, v in zip(full[0].value.values[0].keys, full[0].value.values[0].values)}
+        if _foreign_object(d.get("pieces root"), fn, hv):
+            F["leaf"] = und("the pieces root is read from `%s`, an object other than the per-file hasher, which the extractor does not follow" % d.get("pieces root"), full[0], fn)
+        elif any(_bare_local(d.get(k), fn, {sv}) for k in ("length", "pieces root")):
+            F["leaf"] = und("the leaf is built from a local (`%s`) whose definition the extractor does not follow" % ", ".join(
+                d[k] for k in ("length", "pieces root") if _bare_local(d.get(k), fn, {sv})), full[0], fn)
+        else:
+            F["leaf"] = Fact("{length: size, pieces root: hasher.root}" if d.get("length") == sv and d.get("pieces root") == "%s.root" % hv else "{length: %s, pieces root: %s}" % (d.get("length"), d.get("pieces root")), full[0], fn)
     else:
         F["leaf"] = und("leaf literal with length and pieces root not found", fb, fn)
     # piece-layer membership
@@ -106,67 +113,59 @@ def traverse_facts(ctx, cq):
             elif t is not None:
                 conds.append(("" if lab == "true" else "not ") + norm(t))
         F["layer.member"] = Fact(" & ".join(sorted(conds)) or "unconditional", st, fn)
-        key = norm(st.targets[0].slice)
-        F["layer.key"] = Fact("hasher.root" if key == "%s.root" % hv else key, st, fn)
-        val = norm(st.value)
+        key = ab.get(norm(st.targets[0].slice), norm(st.targets[0].slice))
+        F["layer.key"] = Fact("hasher.root" if key == "%s.root" % hv else key, st, fn) if not (_bare_local(key, fn, {sv}) or _foreign_object(key, fn, hv)) else \
+            und("the key is a local (`%s`) whose definition the extractor does not follow" % key, st, fn)
+        val = ab.get(norm(st.value), norm(st.value))
         if val == "%s.piece_layer" % hv:
             F["layer.value"] = Fact("hasher.piece_layer", st, fn)
         elif isinstance(st.value, ast.Name):
-            # concatenation, in order, of exactly the layer hashes yielded
+            # concatenation, in order, of exactly the layer hashes yielded: every definition of the variable is either
+            # `<empty bytes>.join(hasher)` or an empty value followed, in the same block, by one loop over the hasher that
+            # extends it on every iteration
             v = st.value.id
             ext = [n for n in body_nodes if isinstance(n, ast.Call) and isinstance(n.func, ast.Attribute) and n.func.attr == "extend" and norm(n.func.value) == v]
             init = [n for n in body_nodes if isinstance(n, ast.Assign) and norm(n.targets[0]) == v]
-            loops = [ctx.prog.parent.get(ctx.prog.enclosing_stmt(e)) for e in ext]
-            ok = len(ext) == 1 and len(init) == 1 and norm(init[0].value) in ("bytearray()", "b''", "bytes()")
-            inloop = None
-            n = ext[0] if ext else None
-            while n is not None and n is not fn.node:
-                n = ctx.prog.parent.get(n)
-                if isinstance(n, ast.For):
-                    inloop = n
-                    break
-            every = False
-            if ok and inloop is not None and norm(inloop.iter) == hv:
-                gl = g.of[inloop]
+            other = [n for n in body_nodes if (isinstance(n, ast.AugAssign) and norm(n.target) == v)
+                     or (isinstance(n, ast.Name) and n.id == v and isinstance(n.ctx, ast.Store) and not any(n is i.targets[0] for i in init))]
+            EMPTY = ("bytearray()", "b''", "bytes()")
+            paired = set()
+            ok = bool(init) and not other
+            for i_ in init:
+                iv = i_.value
+                if isinstance(iv, ast.Call) and isinstance(iv.func, ast.Name) and iv.func.id in ("bytearray", "bytes") and len(iv.args) == 1 and not iv.keywords:
+                    iv = iv.args[0]
+                if isinstance(iv, ast.Call) and isinstance(iv.func, ast.Attribute) and iv.func.attr == "join" and norm(iv.func.value) in EMPTY and len(iv.args) == 1 and norm(iv.args[0]) == hv:
+                    continue
+                if norm(i_.value) not in EMPTY:
+                    ok = False
+                    continue
+                holder = ctx.prog.parent.get(i_)
+                blk = next((getattr(holder, f_) for f_ in ("body", "orelse", "finalbody") if isinstance(getattr(holder, f_, None), list) and i_ in getattr(holder, f_)), None)
+                after = blk[blk.index(i_) + 1:] if blk else []
+                loops = [x for x in after if isinstance(x, ast.For) and norm(x.iter) == hv and any(e in list(ast.walk(x)) for e in ext)]
+                if len(loops) != 1:
+                    ok = False
+                    continue
+                mine = [e for e in ext if e in list(ast.walk(loops[0]))]
+                gl = g.of[loops[0]]
                 bs = C.succ_by_label(gl, "iter")[0]
-                every = g.must_pass(bs, gl, {C.stmt_node(ctx, fn, ext[0])})
-            F["layer.value"] = Fact("concatenation of every layer hash the hasher yields, in order" if ok and every else "?" + val, st, fn)
+                if len(mine) != 1 or not g.must_pass(bs, gl, {C.stmt_node(ctx, fn, mine[0])}):
+                    ok = False
+                paired.update(id(e) for e in mine)
+            ok = ok and all(id(e) in paired for e in ext)
+            F["layer.value"] = Fact("concatenation of every layer hash the hasher yields, in order" if ok else "?" + val, st, fn)
         else:
             F["layer.value"] = Fact("?" + val, st, fn)
     else:
         F["layer.member"] = und("piece-layers store not found", fb, fn)
-    # ---- directory branch
-    loops = [n for n in own_nodes(fn.node) if isinstance(n, ast.For) and n not in body_nodes]
-    if len(loops) != 1:
-        F["dir.loop"] = und("directory loop not found", fn.node, fn)
-    else:
-        l = loops[0]
-        it = l.iter
-        srt = isinstance(it, ast.Call) and C.is_ext_call(ctx, it, fn, ("builtins.sorted",)) and not it.keywords and len(it.args) == 1 \
-            and isinstance(it.args[0], ast.Call) and C.is_ext_call(ctx, it.args[0], fn, ("os.listdir",)) and norm(it.args[0].args[0]) == p
-        if not srt:
-            # the listing may be walked by a helper generator that yields the entries of sorted(os.listdir(path))
-            sl = C.sorted_listing_generator(ctx, fn, it)
-            srt = sl is not None and norm(sl[0]) == p
-        F["dir.order"] = Fact("sorted(os.listdir(path))" if srt else norm(it), it, fn)
-        filt = [x for st in l.body for x in ast.walk(st) if isinstance(x, (ast.If, ast.Continue, ast.Break, ast.IfExp))]
-        stores = [st for st in l.body if isinstance(st, ast.Assign) and isinstance(st.targets[0], ast.Subscript)]
-        desc = "?"
-        if len(stores) == 1 and isinstance(l.target, ast.Name):
-            st = stores[0]
-            k = norm(st.targets[0].slice)
-            v = st.value
-            rec = isinstance(v, ast.Call) and any(t is fn for t in C.targets_of(ctx, fn, v)) and len(v.args) == 1 and isinstance(v.args[0], ast.Call) \
-                and C.is_ext_call(ctx, v.args[0], fn, ("os.path.join",)) and [norm(a) for a in v.args[0].args] == [p, l.target.id]
-            desc = "tree[name] = traverse(join(path, name)) for every name" if (k == l.target.id and rec and not filt) else \
-                "tree[%s] = %s%s" % (k, norm(v), " with a filter" if filt else "")
-        F["dir.loop"] = Fact(desc, l, fn)
-        ret = [n for n in fn.node.body if isinstance(n, ast.Return)]
-        F["dir.return"] = Fact("returns the tree" if ret and stores and norm(ret[-1].value) == norm(stores[0].targets[0].value) else "?", ret[-1] if ret else l, fn)
+    # ---- directory branch (in the traversal itself, or in a helper it hands the path to as its last statement)
+    dirfacts, holder = _dir_part(ctx, fn, fn, p, set(map(id, body_nodes)), frozenset())
+    F.update(dirfacts)
     # ---- how the traversal is entered: once, on the content root, its result being the file tree
     entries = []
     for f in ctx.prog.functions.values():
-        if f is fn:
+        if f is fn or f is holder:
             continue
         for n in own_nodes(f.node):
             if isinstance(n, ast.Call) and any(t is fn for t in C.targets_of(ctx, f, n)):
@@ -221,6 +220,113 @@ def traverse_facts(ctx, cq):
 
 
 FLAT_ENTRY = "called once per file of a flat listing sorted by full path"
+
+
+def _abbreviations(fn):
+    """Locals of fn that are defined exactly once, by `name = <attribute chain on a name>` (root = hasher.root): name -> text."""
+    stores = {}
+    for n in own_nodes(fn.node):
+        if isinstance(n, ast.Name) and isinstance(n.ctx, (ast.Store, ast.Del)):
+            stores[n.id] = stores.get(n.id, 0) + 1
+    out = {}
+    for n in own_nodes(fn.node):
+        if isinstance(n, ast.Assign) and len(n.targets) == 1 and isinstance(n.targets[0], ast.Name) and stores.get(n.targets[0].id) == 1 and isinstance(n.value, ast.Attribute):
+            b = n.value
+            while isinstance(b, ast.Attribute):
+                b = b.value
+            if isinstance(b, ast.Name) and b.id not in fn.params[1:]:
+                out[n.targets[0].id] = norm(n.value)
+    return out
+
+
+def _foreign_object(txt, fn, hv):
+    """txt reads an attribute of a local object other than the per-file hasher (a record built from it, say): the name of
+    that object, else None.  What such an object holds is not followed by this extractor."""
+    import re
+    m = re.match(r"([A-Za-z_][A-Za-z_0-9]*)\.[A-Za-z_]", txt or "")
+    if not m or m.group(1) in (hv, fn.self_name) or m.group(1) in fn.params:
+        return None
+    stored = {n.id for n in own_nodes(fn.node) if isinstance(n, ast.Name) and isinstance(n.ctx, ast.Store)}
+    return m.group(1) if m.group(1) in stored else None
+
+
+def _bare_local(txt, fn, known):
+    """txt is a plain local name (not a parameter, not one of the names the extractor tracks): its value is not followed."""
+    return txt is not None and txt.isidentifier() and txt not in known and txt not in fn.params
+
+
+def _dir_part(ctx, top, H, p, skip, rec_params, depth=0):
+    """The directory arm of the traversal `top`, read in function H whose parameter p holds the path: a statement loop
+    `for name in sorted(os.listdir(p)): tree[name] = top(join(p, name))` followed by `return tree`, the same as a returned
+    dictionary comprehension, or - once - a helper that H calls with the path as its last statement.
+    rec_params: parameters of H that hold the bound traversal (`subtree(self._traverse, path)`).
+    Returns (facts, function that holds the loop)."""
+    F = {}
+
+    def is_rec(v):
+        if not isinstance(v, ast.Call):
+            return False
+        if isinstance(v.func, ast.Name) and v.func.id in rec_params:
+            return True
+        return any(t is top for t in C.targets_of(ctx, H, v))
+
+    def rec_on_child(v, name):
+        return is_rec(v) and len(v.args) == 1 and not v.keywords and isinstance(v.args[0], ast.Call) and C.is_ext_call(ctx, v.args[0], H, ("os.path.join",)) \
+            and [norm(a) for a in v.args[0].args] == [p, name]
+
+    def order(it):
+        srt = isinstance(it, ast.Call) and C.is_ext_call(ctx, it, H, ("builtins.sorted",)) and not it.keywords and len(it.args) == 1 \
+            and isinstance(it.args[0], ast.Call) and C.is_ext_call(ctx, it.args[0], H, ("os.listdir",)) and it.args[0].args and norm(it.args[0].args[0]) == p
+        if not srt:
+            # the listing may be walked by a helper generator that yields the entries of sorted(os.listdir(path))
+            sl = C.sorted_listing_generator(ctx, H, it)
+            srt = sl is not None and norm(sl[0]) == p
+        return Fact("sorted(os.listdir(path))" if srt else norm(it), it, H)
+    loops = [n for n in own_nodes(H.node) if isinstance(n, ast.For) and id(n) not in skip]
+    comps = [n for n in H.node.body if isinstance(n, ast.Return) and isinstance(n.value, ast.DictComp)]
+    if len(loops) == 1 and not comps:
+        l = loops[0]
+        F["dir.order"] = order(l.iter)
+        filt = [x for st in l.body for x in ast.walk(st) if isinstance(x, (ast.If, ast.Continue, ast.Break, ast.IfExp))]
+        stores = [st for st in l.body if isinstance(st, ast.Assign) and isinstance(st.targets[0], ast.Subscript)]
+        desc = "?"
+        if len(stores) == 1 and isinstance(l.target, ast.Name):
+            st = stores[0]
+            k = norm(st.targets[0].slice)
+            v = st.value
+            desc = "tree[name] = traverse(join(path, name)) for every name" if (k == l.target.id and rec_on_child(v, l.target.id) and not filt) else \
+                "tree[%s] = %s%s" % (k, norm(v), " with a filter" if filt else "")
+        F["dir.loop"] = Fact(desc, l, H)
+        ret = [n for n in H.node.body if isinstance(n, ast.Return)]
+        F["dir.return"] = Fact("returns the tree" if ret and stores and norm(ret[-1].value) == norm(stores[0].targets[0].value) else "?", ret[-1] if ret else l, H)
+        return F, H
+    if not loops and len(comps) == 1 and comps[0] is H.node.body[-1]:
+        dc = comps[0].value
+        gens = dc.generators
+        if len(gens) == 1 and isinstance(gens[0].target, ast.Name) and not gens[0].is_async:
+            name = gens[0].target.id
+            F["dir.order"] = order(gens[0].iter)
+            plain = norm(dc.key) == name and rec_on_child(dc.value, name) and not gens[0].ifs and not any(isinstance(x, ast.IfExp) for x in ast.walk(dc.value))
+            F["dir.loop"] = Fact("tree[name] = traverse(join(path, name)) for every name" if plain else
+                                 "tree[%s] = %s%s" % (norm(dc.key), norm(dc.value), " with a filter" if gens[0].ifs else ""), dc, H)
+            F["dir.return"] = Fact("returns the tree", comps[0], H)
+            return F, H
+        F["dir.loop"] = und("the returned dictionary comprehension has a shape the extractor does not read", dc, H)
+        return F, H
+    tail = H.node.body[-1] if H.node.body else None
+    if not loops and not comps and depth == 0 and isinstance(tail, ast.Return) and isinstance(tail.value, ast.Call):
+        tg = [t for t in C.targets_of(ctx, H, tail.value) if t is not top]
+        if len(tg) == 1 and not tg[0].is_generator:
+            T = tg[0]
+            bound = ctx.res.bind_args(T, tail.value, T.cls is not None and not T.is_static)
+            paths = [k for k, v in bound.items() if isinstance(v, ast.Name) and v.id == p]
+            recs = frozenset(k for k, v in bound.items() if isinstance(v, ast.Attribute) and isinstance(v.value, ast.Name) and v.value.id == H.self_name
+                             and any(kd[0] in ("func", "method", "bound") and kd[1] is top for kd in ctx.res.kinds(v, H)))
+            reassigned = any(isinstance(x, ast.Name) and isinstance(x.ctx, ast.Store) and x.id in set(paths) | set(recs) for x in own_nodes(T.node))
+            if len(paths) == 1 and not reassigned and len(bound) == len(paths) + len(recs):
+                return _dir_part(ctx, top, T, paths[0], set(), recs, depth + 1)
+    F["dir.loop"] = und("directory loop not found", H.node, H)
+    return F, H
 
 
 def _enclosing_for(ctx, f, node):
@@ -332,11 +438,13 @@ def hybrid_entry_facts(ctx, cq, fn, fb, sv, hv):
     F = {}
     body_nodes = [n for st in fb.body for n in ast.walk(st)]
     apps = [n for n in body_nodes if isinstance(n, ast.Call) and isinstance(n.func, ast.Attribute) and n.func.attr == "append" and norm(n.func.value) == "self.files" and n.args]
-    real = [a for a in apps if isinstance(a.args[0], ast.Dict)]
-    pads = [a for a in apps if not isinstance(a.args[0], ast.Dict)]
+    # the record may be built by a one-expression helper (`self._file_entry(path, size)`): read through it
+    recs = {id(a): (C.inline_single_return(ctx, fn, a.args[0]) or a.args[0]) for a in apps}
+    real = [a for a in apps if isinstance(recs[id(a)], ast.Dict)]
+    pads = [a for a in apps if not isinstance(recs[id(a)], ast.Dict)]
     flag = "self.hybrid"
     if len(real) == 1:
-        d = {const_str(k): v for k, v in zip(real[0].args[0].keys, real[0].args[0].values)}
+        d = {const_str(k): v for k, v in zip(recs[id(real[0])].keys, recs[id(real[0])].values)}
         lv = norm(d.get("length"))
         pv = d.get("path")
         p = [x for x in fn.params if x != fn.self_name][0]
@@ -358,11 +466,13 @@ def hybrid_entry_facts(ctx, cq, fn, fb, sv, hv):
         pn = C.stmt_node(ctx, fn, a)
         conds = sorted(norm(C.test_expr(b)) for b, lab in g.direct_control_deps(pn) if C.test_expr(b) is not None and lab == "true" and b.ast is not fb)
         want_conds = [c for c in conds if c not in (flag,)]
+        foreign_pad = _foreign_object(src, fn, hv)
         ok_src = src == "%s.padding_file" % hv
         ok_cond = all(src in c for c in want_conds) and bool(want_conds)
         after = bool(real) and pn in g.reachable(C.stmt_node(ctx, fn, real[0]))
         F["padding.entry"] = Fact("hasher.padding_file appended after the file's own entry iff the hasher produced one" if ok_src and ok_cond and after else
-                                  "append(%s) under %s%s" % (src, conds, "" if after else " before the file entry"), a, fn)
+                                  "append(%s) under %s%s" % (src, conds, "" if after else " before the file entry"), a, fn) if not foreign_pad else \
+            und("the padding entry is read from `%s`, an object other than the per-file hasher, which the extractor does not follow" % src, a, fn)
     else:
         F["padding.entry"] = und("expected one padding entry append, found %d" % len(pads), fb, fn)
     # pieces
@@ -380,7 +490,8 @@ def hybrid_entry_facts(ctx, cq, fn, fb, sv, hv):
                 # `for layer_hash, piece in hasher:` - the same, unpacked in the loop target
                 if what == "iterunpack" and payload[1] == 1 and norm(payload[0]) == hv:
                     ok = True
-        F["v1.pieces"] = Fact("extended with the hasher's v1 piece hashes" if ok else "extend(%s)" % v, pe[0], fn)
+        F["v1.pieces"] = Fact("extended with the hasher's v1 piece hashes" if ok else "extend(%s)" % v, pe[0], fn) if ok or not _foreign_object(v, fn, hv) else \
+            und("the v1 piece hashes are read from `%s`, an object other than the per-file hasher, which the extractor does not follow" % v, pe[0], fn)
     else:
         F["v1.pieces"] = und("expected one extension of self.pieces, found %d" % len(pe), fb, fn)
     if hv is None:
